@@ -18,8 +18,8 @@ CONSTANTS MaxPk,      \* packets per file with freely chosen capture length and 
           MaxPkRot,   \* packets per file when only the capture lengths are free
           VSet,       \* rotations explored (0..4 = all)
           HeadSet     \* pcapng heads explored (1..5 = all)
-VARIABLES sc, v, head, free
-gvars == <<sc, v, head, free>>
+VARIABLES sc, v, head, free, blk     \* blk = Blocks(sc), computed once per state
+gvars == <<sc, v, head, free, blk>>
 
 CapSet == {0, 1, 2, 3, 4, 5, 17}
 Strs == <<"", "a", "abc", "abcd", "abcde">>
@@ -38,7 +38,7 @@ Heads == <<[nif |-> 1, pos2 |-> 0, mixed |-> FALSE], [nif |-> 2, pos2 |-> 0, mix
            [nif |-> 2, pos2 |-> 1, mixed |-> TRUE]>>
 
 Idb(i, link, snap) == [t |-> "idb", link |-> link, snap |-> snap, name |-> Str(i), cmt |-> Str(i + 1), descr |-> Str(i + 2),
-                       filter |-> Str(i + 3), os |-> Str(i + 4), tsoff |-> 0]
+                       filter |-> Str(i + 3), os |-> Str(i + 4), tsoff |-> (IF i % 5 = 2 THEN 5 ELSE 0)]
 NPk(s) == Len(Packets(s))
 
 InitPcap == /\ v \in VSet /\ head = 0 /\ free = TRUE
@@ -52,7 +52,7 @@ InitNg == /\ head \in HeadSet /\ free \in BOOLEAN
              IN sc = [fmt |-> "ng", mixed |-> h.mixed,
                       shb |-> [app |-> Str(v), cmt |-> Str(v + 1), hw |-> Str(v + 2), os |-> Str(v + 3)],
                       items |-> IF h.nif = 2 /\ h.pos2 = 0 THEN <<first, second>> ELSE <<first>>]
-Init == InitPcap \/ InitNg
+Init == (InitPcap \/ InitNg) /\ blk = Blocks(sc)
 
 PcapPkt(cap) == LET i == NPk(sc) + v IN [t |-> "pkt", cap |-> cap, len |-> cap + LenDelta(i), s |-> Ts(i).s, ns |-> Ts(i).ns]
 NgPkt(cap, cm) ==
@@ -76,6 +76,7 @@ Next == /\ UNCHANGED <<v, head, free>>
              \/ /\ sc.fmt = "ng"
                 /\ \E cm \in (IF free THEN CmSel ELSE {IF (NPk(sc) + cap) % 6 = 0 THEN "-" ELSE Str(NPk(sc) + cap)}) :
                       sc' = [sc EXCEPT !.items = After(Append(sc.items, NgPkt(cap, cm)))]
+        /\ blk' = Blocks(sc')
 Spec == Init /\ [][Next]_gvars
 
 (* ----------------------------- ideal implementation ---------------------- *)
@@ -96,7 +97,7 @@ IdealPk(s) == [i \in 1..NPk(s) |->
                   pid |-> (IF s.fmt = "ng" THEN it.pid ELSE -1), q |-> (IF s.fmt = "ng" THEN it.q ELSE -1),
                   vd |-> (IF s.fmt = "ng" THEN it.vd ELSE <<>>)]]
 IdealEvents(s) ==
-  LET B == Blocks(s)
+  LET B == blk
       n == FileLenB(B)
       pk == IdealPk(s)
       \* maximal runs as the block-by-block reader produces them: offset 0, then per block its interior and its end
@@ -120,7 +121,7 @@ JudgeAll(st, evs, i) == IF i > Len(evs) THEN "ok"
 \* lemma used by Judge: between two consecutive boundaries the truncation law does not change, and the operational
 \* reader agrees with the declarative law at every single offset
 PropPiecewise ==
-  LET B == Blocks(sc)
+  LET B == blk
       n == FileLenB(B)
       bnd == BoundariesB(B)
       RP == [c \in 0..n |-> ReadPrefixB(B, c)]
@@ -131,12 +132,12 @@ PropAcceptsIdeal == JudgeAll(NewState, IdealEvents(sc), 1) = "ok"
 \* an ideal reader that returns a packet whose last byte is missing must be REJECTED (the law is not vacuous)
 PropRejectsEager ==
   NPk(sc) > 0 =>
-    LET B == Blocks(sc)
+    LET B == blk
         b == CHOOSE x \in {B[i] : i \in 1..Len(B)} : x.pkt = 1
         st == [NewState EXCEPT !.sc = sc, !.B = B, !.td = [i \in 1..NPk(sc) |-> Digest(100 + i)], !.next = [m \in CutModes |-> EndOf(b) - 1]]
     IN Judge(st, [op |-> "cuts", mode |-> "copy", lo |-> EndOf(b) - 1, hi |-> EndOf(b), k |-> 1, end |-> "ueof",
                   tds |-> <<Digest(101)>>])[1] = "packet-not-wholly-in-prefix-returned"
 \* rotated-comment pcapng scenarios only add the files with more than MaxPk packets
-Export == (sc.fmt = "pcap" \/ free \/ NPk(sc) > MaxPk) => PrintT("BEH " \o ToJson([scen |-> sc, size |-> FileLen(sc),
-                                   blocks |-> [i \in 1..Len(Blocks(sc)) |-> <<Blocks(sc)[i].k, Blocks(sc)[i].off, Blocks(sc)[i].len>>]]))
+Export == (sc.fmt = "pcap" \/ free \/ NPk(sc) > MaxPk) => PrintT("BEH " \o ToJson([scen |-> sc, size |-> FileLenB(blk),
+                                   blocks |-> [i \in 1..Len(blk) |-> <<blk[i].k, blk[i].off, blk[i].len>>]]))
 =============================================================================
